@@ -108,7 +108,7 @@ pub fn reachable(c: &SCase, b: &Built, from: usize) -> Vec<bool> {
 // ---------------------------------------------------------------------------------------------
 // C01
 
-fn oracle_c01(ctx: &mut Ctx, idx: usize, c: &SCase, r: &SearchAlgorithmResult) {
+pub fn oracle_c01(ctx: &mut Ctx, idx: usize, c: &SCase, r: &SearchAlgorithmResult) {
     let distinct = c.target.map_or(true, |t| t != c.source);
     if !distinct {
         return;
@@ -379,7 +379,7 @@ fn feat_index(b: &Built, name: &str) -> Option<usize> {
     b.si.state_model.indexed_iter().find(|(_, (n, _))| n.as_str() == name).map(|(i, _)| i)
 }
 
-fn oracle_c03(ctx: &mut Ctx, idx: usize, c: &SCase, b: &Built, r: &SearchAlgorithmResult, reopened: bool) {
+pub fn oracle_c03(ctx: &mut Ctx, idx: usize, c: &SCase, b: &Built, r: &SearchAlgorithmResult, reopened: bool) {
     // a search that re-opened a vertex (possible only with a heuristic that is inconsistent for the
     // network, never for Dijkstra) can leave a child's entry computed from its parent's earlier
     // label: every accumulation failure of such a run is attributed to that one recorded finding
@@ -618,7 +618,7 @@ fn edge_forbidden(c: &SCase, e: usize) -> Option<String> {
     None
 }
 
-fn oracle_c04(ctx: &mut Ctx, idx: usize, c: &SCase, r: &SearchAlgorithmResult, reopened: bool) {
+pub fn oracle_c04(ctx: &mut Ctx, idx: usize, c: &SCase, r: &SearchAlgorithmResult, reopened: bool) {
     let n0 = ctx.oracle_len();
     oracle_c04_inner(ctx, idx, c, r);
     if reopened && effective_wf(c) != Some(0.0) {
@@ -734,7 +734,7 @@ fn oracle_c05(ctx: &mut Ctx, idx: usize, c: &SCase, b: &Built, o: &Outcome) {
 // ---------------------------------------------------------------------------------------------
 // C10: limits
 
-fn limits(t: &Term, out: &mut Vec<Term>) {
+pub fn limits(t: &Term, out: &mut Vec<Term>) {
     match t {
         Term::Combined(ms) => ms.iter().for_each(|m| limits(m, out)),
         other => out.push(other.clone()),
@@ -824,7 +824,7 @@ fn oracle_c10(ctx: &mut Ctx, idx: usize, c: &SCase, b: &Built, ex: &Exec) {
     }
 }
 
-fn short(s: &str) -> String {
+pub fn short(s: &str) -> String {
     if s.len() > 300 {
         format!("{}…", &s[..300])
     } else {
@@ -1092,13 +1092,22 @@ pub fn run(ctx: &mut Ctx, p: Prop) -> &'static str {
     }
     items.clear();
     let _: HashMap<u8, u8> = HashMap::new();
+    // the k-shortest-paths stream of this property (harness/src/c13.rs): single-via vertex- and
+    // edge-oriented, Yen where it returns (child process); case lines start with `ksp`
     match p {
-        Prop::C01 => "random digraphs (rings, grids, two components, dense with parallel edges and self loops), tie-heavy / generic / metric lengths, Dijkstra and A* with weight factors 0..10, forward and reverse, vertex and edge orientation, with the full model stack; non-trivial = successful search with a route of >= 2 edges or a tree of >= 3 entries, distinct by full output",
+        Prop::C01 => crate::c13::run_prop_stream(ctx, crate::c13::Stream::C01),
+        Prop::C03 => crate::c13::run_prop_stream(ctx, crate::c13::Stream::C03),
+        Prop::C04 => crate::c13::run_prop_stream(ctx, crate::c13::Stream::C04),
+        Prop::C10 => crate::c13::run_prop_stream(ctx, crate::c13::Stream::C10),
+        _ => {}
+    }
+    match p {
+        Prop::C01 => "random digraphs (rings, grids, two components, dense with parallel edges and self loops), tie-heavy / generic / metric lengths, Dijkstra and A* with weight factors 0..10, forward and reverse, vertex and edge orientation, with the full model stack, followed by a k-shortest-paths stream (single-via vertex- and edge-oriented, Yen where it returns: every single-via route and the first Yen route judged by the same walk oracle; lollipop and edge-oriented multi-route shapes first); non-trivial = successful search with a route of >= 2 edges or a tree of >= 3 entries (KSP: at least two routes), distinct by full output",
         Prop::C02 => "state-independent non-negative costs (distance / speed models, raw / factor / combined rates, per-edge surcharges), no access model, edge-local restrictions, half of the cases metrically consistent; Bellman-Ford oracle; non-trivial as C01",
-        Prop::C03 => "all unit configurations of distance / speed models and turn-delay access models; per-edge re-accumulation with the real unit functions; non-trivial as C01",
-        Prop::C04 => "road-class, vehicle-restriction (mixed units, values straddling limits), turn-restriction and edge-cut models and their combinations; non-trivial as C01",
+        Prop::C03 => "all unit configurations of distance / speed models and turn-delay access models; per-edge re-accumulation with the real unit functions, also along every alternative of a k-shortest-paths stream (turn delays, junction of the two halves included); non-trivial as C01",
+        Prop::C04 => "road-class, vehicle-restriction (mixed units, values straddling limits), turn-restriction and edge-cut models and their combinations, also on every alternative of a k-shortest-paths stream; non-trivial as C01",
         Prop::C05 => "disconnected and restricted graphs, with and without destination; BFS oracle over permitted edges; non-trivial as C01",
-        Prop::C10 => "iteration / solution-size / runtime limits (virtual clock) and combinations from zero to beyond need; non-trivial = successful non-trivial search or explicit termination",
+        Prop::C10 => "iteration / solution-size / runtime limits (virtual clock) and combinations from zero to beyond need, followed by a k-shortest-paths stream (single-via and returning Yen runs: each underlying search within its limits, result identical to the unlimited query or the explicit terminated error); non-trivial = successful non-trivial search or explicit termination",
     }
 }
 
